@@ -329,3 +329,39 @@ def r12_7(ctx):
 def r12_8(ctx):
     from .c13 import r13_7
     r13_7(ctx)
+
+
+@rule("R12.9", min_instances=2, desc="parent-level symbols in coupling constraints / objective: DirectMethod.eval_top substitutes the stage's global variables by self.V and its global parameters by self.P (same order on both sides of the substitution)")
+def r12_9(ctx):
+    P = ctx.prog
+    f = P.own_method("DirectMethod", "eval_top")
+    calls = [c for c in walk_no_nested(f.node) if isinstance(c, ast.Call) and isinstance(c.func, ast.Name) and c.func.id == "substitute" and len(c.args) == 3]
+    if len(calls) != 1:
+        raise AnalysisError("DirectMethod.eval_top: expected one substitute(expr, from, to) call, found %d" % len(calls))
+    c = calls[0]
+
+    def flat_add(e):
+        if isinstance(e, ast.BinOp) and isinstance(e.op, ast.Add):
+            return flat_add(e.left) + flat_add(e.right)
+        return [e]
+
+    def kinds_from(e):
+        # veccat(*(A+B)) / vvcat(A+B) / vertcat(veccat(*A), veccat(*B))
+        if isinstance(e, ast.Call) and isinstance(e.func, ast.Name) and e.func.id in ("veccat", "vvcat", "vertcat", "vcat"):
+            out = []
+            for a in e.args:
+                a = a.value if isinstance(a, ast.Starred) else a
+                for x in flat_add(a):
+                    if isinstance(x, ast.Call):
+                        out += kinds_from(x)
+                    else:
+                        t = ast.unparse(x).replace('"', "'")
+                        out.append({"stage.variables['']": "V", "stage.parameters['']": "P", "self.V": "V", "self.P": "P"}.get(t, "?" + t))
+            return out
+        t = ast.unparse(e).replace('"', "'")
+        return [{"self.V": "V", "self.P": "P"}.get(t, "?" + t)]
+    src, dst = kinds_from(c.args[1]), kinds_from(c.args[2])
+    ok = src == dst and sorted(src) == ["P", "V"]
+    ctx.check(ok, "DirectMethod.eval_top pairs global variables with self.V and global parameters with self.P", detail="a parent-level variable and parameter are substituted crosswise in coupling constraints and objective",
+              expected="substitute(expr, [variables[''], parameters['']], [self.V, self.P]) in the same order", found="from %s to %s" % (src, dst), fi=f, node=c, sample={"from": src, "to": dst})
+    ctx.check(ast.unparse(c.args[0]) in ("MX(expr)", "expr"), "DirectMethod.eval_top substitutes in the expression it was given", detail="eval_top", expected="substitute(MX(expr), ...)", found=ast.unparse(c.args[0]), fi=f)
